@@ -10,7 +10,7 @@ import math
 from .. import core, tlc
 from ..core import Part, Skip, observe
 
-DIMS = list(range(1, 11))
+DIMS = list(range(1, 11)) + [12, 16, 17, 20, 25, 32, 40]     # the constructors accept any dimension
 #          class name         dimensions (None = fixed by the class)
 CLASSES = [("Rosenbrock", DIMS), ("Ackley", DIMS), ("Sphere", DIMS), ("Schwefel", DIMS), ("ModifiedEasom", DIMS), ("EqualityConstr", DIMS),
            ("Griewank", DIMS), ("Michaelwicz", [2, 5, 10]), ("Perm", DIMS), ("Rastrigin", DIMS), ("SixHump", None), ("Schubert", None),
@@ -38,7 +38,7 @@ class Contract(Part):
         cases = []
         for name, dims in CLASSES:
             for dim in (dims or [None]):
-                if ctx.quick and dims and len(dims) > 3 and dim not in (1, 2, 3, 5, 10):
+                if ctx.quick and dims and len(dims) > 3 and dim not in (1, 2, 3, 5, 10, 16, 25):
                     continue
                 # one trace per group, so that a listed known finding (matched per trace) cannot hide a different violation
                 for group in ("optimum", "samples", "search"):
